@@ -167,6 +167,13 @@ class OutboundSim(PeerSim):
             if self.cfg.get("u8") is False and k % 5 == 2:
                 m[553] = "trader7"
                 m[554] = "s3cret-" + str(k)  # (the journal holds the bytes that were sent, whatever they are)
+            if self.cfg.get("bad_vals") and k % 4 == 3 and getattr(self, "max_new", 0) >= self.cfg["eut_out"]:
+                # the application re-sends an old message itself (PossDupFlag=Y under a number that is journaled
+                # already): the journal refuses the duplicate, the send fails - and must leave no trace either
+                m.set(43, "Y", replace=True)
+                m.set(34, self.max_new, replace=True)
+                self.fault("application_level_retransmission_attempt")
+                return m
             if self.cfg.get("bad_vals") and k % 4 == 1:
                 # a message the encoder cannot turn into bytes: the send fails - and must leave no trace
                 if k % 8 == 1:
